@@ -81,23 +81,36 @@ def t_hybrid(c, ops, cp):
     return has(c, lambda n: n[0] in ("post", "stmtexpr") or (n[0] == "call"))
 
 
+def t_sizeof(c, ops, cp):
+    return has(c, lambda n: n[0] in ("sizeof_e", "sizeof_t"))
+
+
+def t_const_cond(c, ops, cp):
+    from vf import ceval
+
+    return has(c, lambda n: n[0] == "cond" and ceval.is_const_expr(n[1]))
+
+
+def t_neg_literal(c, ops, cp):
+    from vf import ceval
+
+    return has(c, lambda n: n[0] == "un" and n[1] == "-" and ceval.is_const_expr(n[2]))
+
+
 def t_literal(c, ops, cp):
     return has(c, lambda n: n[0] == "num")
 
 
 RULES = [
-    Rule("shift-nopromo", "value", "KF-shift-nopromo", t_shift, doc="<< >> evaluate in the unpromoted type of the left operand"),
-    Rule("uac-nopromo", "value", "KF-uac-nopromo", t_cmp_or_cond, doc="comparisons and ?: convert to the common type of the unpromoted operand types"),
     Rule("widen-signed-to-unsigned-zero", "value", "KF-widen-signed-to-unsigned-zero", t_always, doc="signed -> wider unsigned zero-extends"),
     Rule("div-unsigned", "value", "KF-div-unsigned", t_div, doc="/ and % are computed unsigned whatever the common type"),
     Rule("hybrid-eager", "value", "KF-hybrid-eager", t_hybrid,
          doc="value-producing side effects are computed before the statement that consumes them: not guarded by enclosing ?: arms (only a statement-expression that is directly an arm, by the innermost condition), "
              "by && / ||, and computed once for a loop condition"),
-    Rule("logical-typed-as-operand", "static", "KF-logical-typed-as-operand", t_logical,
-         il_msg=r"(CAST|MSB)[^:]*: bitvector expected, got bool|local \w+: IL holds a bool",
-         doc="! && || are typed as their left operand, so converting or storing the result applies CAST/SETL to a boolean"),
-    Rule("bool-as-operand", "static", "KF-bool-as-operand", t_bool_operand, il_msg=r"bitvector expected, got bool",
-         doc="a comparison / logical result used as an operand of a shift, comparison, bitwise or arithmetic operator keeps the IL sort bool (CAST, shift or comparison applied to a boolean)"),
+    Rule("neg-literal-signed", "value", "KF-neg-literal-signed", t_neg_literal, doc="the folded negation of a constant is typed signed (-1U becomes -1)"),
+    Rule("const-cond-no-conversion", "value", "KF-const-cond-no-conversion", t_const_cond, doc="a ?: with a compile-time constant condition yields the live arm without converting it to the common type of both arms"),
+    Rule("const-cond-dead-arm", "static", "KF-const-cond-dead-arm", t_const_cond, il_msg=r"^undeclared|^unset-local|identifier \\w+ is not|does not hold",
+         doc="dead arm of a constant ?: removes operands that live code uses"),
 ]
 BY_ID = {r.id: r for r in RULES}
 FINDING_OF = {r.id: r.finding for r in RULES}
@@ -127,6 +140,16 @@ REJECTION_RULES = []  # (finding id, predicate(result dict))
 
 def rejection_finding(r):
     for fid, pred in REJECTION_RULES:
+        if pred(r):
+            return [fid]
+    return None
+
+
+MUST_REJECT_RULES = []  # (finding id, predicate(result dict))
+
+
+def must_reject_finding(r):
+    for fid, pred in MUST_REJECT_RULES:
         if pred(r):
             return [fid]
     return None
